@@ -357,7 +357,7 @@ package genql
 //@ func BuildFromAliasedTable$1
 //@   requires captured: query != nil && subquery != nil
 
-//@ func SubqueryExpr$2
+//@ func SubqueryExpr$1
 //@   requires captured: query != nil && subQuery != nil
 
 //@ func (*Query).exec$2
@@ -366,7 +366,7 @@ package genql
 //@ func BuildJoin$1
 //@   requires captured: query != nil && side != nil
 
-//@ func ExistExpr$2
+//@ func ExistExpr$1
 //@   requires captured: query != nil && q != nil
 
 // a CTE under evaluation is not re-entered: its entry is replaced before its definition is built (C10: no unbounded recursion)
@@ -500,9 +500,9 @@ package genql
 // ---------------------------------------------------------------------------
 // C11: the writes that do not target an object allocated by the writing activation
 
-// the reserved `<-` navigation key is the one entry the engine sets on (and removes from) rows it does not own; the
-// statement of C11 presupposes that documents do not use that key themselves. ComparisonExpr removes it with a deferred
-// delete; SubqueryExpr and ExistExpr register its removal as a post-processor (not run when the query fails: recorded finding).
+// the reserved `<-` navigation key is never set on a row the engine does not own: ComparisonExpr, SubqueryExpr and
+// ExistExpr put the entry on a copy of the row (navigable) and leave the row itself alone. A store of theirs into the
+// row fails the frame obligation like any other write to an object the activation did not allocate.
 
 // closures that complete a row the engine built (data is the fresh output row of SelectExpr, captured)
 //@ func SelectExpr$1
@@ -857,12 +857,21 @@ package genql
 //@   at-call ProcessAlias assert rows-go-under-the-alias-unchanged[C07]: arg1 == as && called(AsArray)
 //@   ensures derived-table-rows[C07]: err == nil && called(exec) ==> query.from == callresult(ProcessAlias, 0, 3)
 
-// (SELECT ...) in the select list, EXISTS (...): the subquery is prepared against the current row, whose `<-` entry is the enclosing document
+// (SELECT ...) in the select list, EXISTS (...): the subquery is prepared against a copy of the current row whose `<-` entry is the enclosing document
+//@ func navigable
+//@   requires q: query != nil
+//@   loop 0 exhaustive every-column-of-the-row-is-visited[C07]: current
+//@   loop 0 unconditional every-column-of-the-row-is-copied[C07]: scope[key] = value
+//@   at-call mapstore@loop0 assert a-column-of-the-row-keeps-its-value[C07]: has(current, key) && stored == current[key]
+//@   ensures a-copy[C07,C11,C10]: fresh(result)
+//@   ensures carries-the-navigation-entry[C07]: has(result, "<-") && result["<-"] == any(query.data)
 //@ func SubqueryExpr
-//@   at-call Prepare assert scoped-to-the-current-row[C07]: arg0 == current && arg1 == expr.Select && arg2 == query.options && has(current, "<-") && current["<-"] == any(query.data)
+//@   at-call navigable assert the-copy-is-of-the-current-row[C07]: arg0 == query && arg1 == current
+//@   at-call Prepare assert scoped-to-the-current-row[C07]: called(navigable) && arg0 == callresult(navigable, 0) && arg1 == expr.Select && arg2 == query.options
 //@   ensures contributes-what-the-subquery-returns[C07]: err == nil ==> called(exec) && result == callresult(exec, 0)
 //@ func ExistExpr
-//@   at-call Prepare assert scoped-to-the-current-row[C07]: arg0 == current && arg1 == expr.Subquery.Select && arg2 == query.options && has(current, "<-") && current["<-"] == any(query.data)
+//@   at-call navigable assert the-copy-is-of-the-current-row[C07]: arg0 == query && arg1 == current
+//@   at-call Prepare assert scoped-to-the-current-row[C07]: called(navigable) && arg0 == callresult(navigable, 0) && arg1 == expr.Subquery.Select && arg2 == query.options
 //@   ensures true-iff-the-subquery-returns-a-row[C07]: err == nil ==> called(exec) && typeis(callresult(exec, 0), []any) && result == (len(callresult(exec, 0).([]any)) > 0)
 
 //@ func extractColumnsFromExpr
@@ -881,11 +890,11 @@ package genql
 //@ same-type [C07] CteEvaluation == func() (any, error)
 
 // ---------------------------------------------------------------------------
-// Work a query defers (post processors: removal of the `<-` entry, resolution of ASYNC columns; ASYNC calls still
+// Work a query defers (post processors: resolution of ASYNC columns, evaluation of AWAIT arguments; ASYNC calls still
 // running) must reach the query that Exec finishes. A copy made by CopyQuery collects it in a list of its own, and the
 // two functions that run or build on a copy adopt that list after the run and forward the copy's wait group; the post
 // processors are walked to the current end of the list, because one of them (AWAIT) may register more. (C11: the
-// navigation entry is removed from the caller's rows; C12, C14: ASYNC columns are resolved and awaited.)
+// AWAIT arguments are evaluated on rows that are complete; C12, C14: ASYNC columns are resolved and awaited.)
 //@ callers-of CopyQuery [C11,C12,C14]: (*Query).exec BuildJoin
 //@ func CopyQuery
 //@   ensures a-list-of-its-own[C11,C12,C14]: len(result.postProcessors) == 0 && fresh(result.postProcessors)
@@ -945,10 +954,12 @@ package genql
 //@ func (*Query).exec
 //@   frame[C08,C11]
 
-// C11: a comparison sets the navigation entry on the row for the time its operands are evaluated and takes it off
-// again on every way out, errors included
+// C11/C10/C01: a comparison evaluates its operands on a copy of the row that carries the navigation entry; the row itself,
+// which may be the caller's object, never gets the entry (a store into it fails the frame obligation of C11)
 //@ func ComparisonExpr
-//@   ensures the-navigation-entry-is-taken-off-on-every-way-out[C11]: !has(current, "<-")
+//@   at-call navigable assert the-copy-is-of-the-current-row[C01,C11]: arg0 == query && arg1 == current
+//@   at-call Expr assert operands-are-read-from-the-copy-of-the-row[C01]: arg0 == query && arg1 == callresult(navigable, 0)
+//@   at-call ValueOf assert operands-are-resolved-on-the-copy-of-the-row[C01]: arg0 == query && arg1 == callresult(navigable, 0)
 
 // C12/C14/C11: what a query adopted while it was built (a derived table's or a join side's deferred work) is still there when
 // the run begins: the list of post processors is not reset
